@@ -371,7 +371,7 @@ func genSpec(rng *rand.Rand) codecSpec {
 	case 4, 5:
 		return codecSpec{kind: "vi", max: []int{1, 16, 127, 128, 300, 16384, 65536, 1 << 20}[rng.Intn(8)]}
 	case 6, 7:
-		d := [][]byte{[]byte("\n"), []byte("\r\n"), []byte("aa"), []byte("ab"), []byte("aba"), {0}, {0, 1}, []byte("$_$")}[rng.Intn(8)]
+		d := [][]byte{[]byte("\n"), []byte("\r\n"), []byte("aa"), []byte("ab"), []byte("aba"), {0}, {0, 1}, []byte("$_$"), []byte("aab"), []byte("==\n"), []byte("--\n"), []byte("abab")}[rng.Intn(12)]
 		return codecSpec{kind: "dl", delim: d, max: []int{1, 2, 3, 8, 64, 300, 4096, 70010}[rng.Intn(8)], stripDelim: rng.Intn(2) == 0}
 	default:
 		return codecSpec{kind: "fx", n: []int{1, 2, 3, 7, 16, 255, 256, 1024, 0, -1}[rng.Intn(10)]}
@@ -427,6 +427,16 @@ func runC04(prop string, seed int64, count int) {
 				n = s.n
 			}
 			p := randPayload(rng, n)
+			if s.kind == "dl" && rng.Intn(2) == 0 { // payload ending in a partial match of the delimiter
+				k := 1 + rng.Intn(len(s.delim))
+				if k > len(s.delim)-1 && len(s.delim) > 1 {
+					k = len(s.delim) - 1
+				}
+				p = append(p, s.delim[:k]...)
+				if rng.Intn(2) == 0 {
+					p = append(p, s.delim[0])
+				}
+			}
 			carrier := rng.Intn(6)
 			enc, st := doEncode(out, p, carrier)
 			if st == "ok" {
@@ -442,7 +452,7 @@ func runC04(prop string, seed int64, count int) {
 		finI := 0
 		if prop == "C08" {
 			// adversarial streams: cut, corrupt, random, huge headers
-			switch rng.Intn(6) {
+			switch rng.Intn(7) {
 			case 0:
 				if len(stream) > 0 {
 					stream = stream[:rng.Intn(len(stream)+1)]
@@ -461,6 +471,17 @@ func runC04(prop string, seed int64, count int) {
 				}
 			case 4:
 				stream = append(stream, randPayload(rng, rng.Intn(10))...)
+			case 5: // well-formed but huge length headers: 2^63, 2^64-1, 2^63-1, 2^32 (varint) / all-ones fields
+				hd := [][]byte{
+					{0x80, 0x80, 0x80, 0x80, 0x80, 0x80, 0x80, 0x80, 0x80, 0x01},
+					{0xff, 0xff, 0xff, 0xff, 0xff, 0xff, 0xff, 0xff, 0xff, 0x01},
+					{0xff, 0xff, 0xff, 0xff, 0xff, 0xff, 0xff, 0xff, 0x7f},
+					{0x80, 0x80, 0x80, 0x80, 0x10},
+					{0x80, 0x00, 0x00, 0x00, 0x00, 0x00, 0x00, 0x00},
+					{0xff, 0xff, 0xff, 0xff, 0xff, 0xff, 0xff, 0xff},
+					{0x7f, 0xff, 0xff, 0xff, 0xff, 0xff, 0xff, 0xff},
+				}[rng.Intn(7)]
+				stream = append(append([]byte(nil), hd...), randPayload(rng, rng.Intn(20))...)
 			}
 			finI = rng.Intn(3)
 		}
